@@ -9,7 +9,8 @@ from vf.explore import Chooser, HarnessError
 PID = "C18"
 
 # acceptor scripts: list of steps. ('s', j, kind) submit job j; ('r', j) release long job j;
-# ('w', j) wait until job j has finished; ('c',) close the pool.
+# ('w', j) wait until job j has finished; ('i',) wait until no worker is marked busy; ('c',) close the pool.
+# job kinds: short, long (runs until released), raises (ends with an exception, which Worker.run is written to survive)
 SCRIPTS = {
     "two-short-close": [("s", 0, "short"), ("s", 1, "short"), ("c",)],
     "short-wait-short-close": [("s", 0, "short"), ("w", 0), ("s", 1, "short"), ("w", 1), ("c",)],
@@ -23,6 +24,9 @@ SCRIPTS = {
     "short-forkclose-short": [("s", 0, "short"), ("fc",), ("s", 1, "short")],
     "long-forkclose-short-release": [("s", 0, "long"), ("fc",), ("s", 1, "short"), ("r", 0)],
     "forkclose-short-short": [("fc",), ("s", 0, "short"), ("s", 1, "short")],
+    "raise-idle-short-close": [("s", 0, "raises"), ("w", 0), ("i",), ("s", 1, "short"), ("w", 1), ("c",)],
+    "raise-short-idle-close": [("s", 0, "raises"), ("s", 1, "short"), ("w", 0), ("w", 1), ("i",), ("c",)],
+    "long-raise-release-idle-close": [("s", 0, "long"), ("s", 1, "raises"), ("r", 0), ("w", 0), ("w", 1), ("i",), ("c",)],
 }
 
 
@@ -62,6 +66,8 @@ def make_run(cfg):
                     release[j].wait()
                 finished[j] = finished.get(j, 0) + 1
                 done_evt[j].flag = True
+                if kind == "raises":
+                    raise RuntimeError("job %d ends with an exception" % j)
             job.j = j
             return job
 
@@ -98,6 +104,10 @@ def make_run(cfg):
                         state["waiting_for"] = step[1]
                         done_evt[step[1]].wait()
                         state["waiting_for"] = None
+                elif step[0] == "i":
+                    state["waiting_idle"] = True
+                    sch.block(lambda: not pool.busy, what="no busy workers")
+                    state["waiting_idle"] = False
                 elif step[0] == "c":
                     for ev in release.values():
                         ev.flag = True     # nothing may stay blocked for ever by the harness' own doing
@@ -151,7 +161,10 @@ def make_run(cfg):
                 violations.append({"fingerprint": "C18|%s" % fp, "what": "%s [cfg=%s]" % (what, cfg),
                                    "replay": {"cfg": cfg}})
             if outcome == "deadlock":
-                if state.get("waiting_for") is not None:
+                if state.get("waiting_idle"):
+                    V("worker-busy-after-job-ended", "all jobs have ended but the pool still counts a worker as busy: %r busy, %r"
+                      % (len(state["pool"].busy), [repr(t) for t in sch.threads]))
+                elif state.get("waiting_for") is not None:
                     V("job-never-served", "accepted job %d is never run to completion although the pool was not closed: %r"
                       % (state["waiting_for"], [repr(t) for t in sch.threads]))
                 else:
@@ -195,6 +208,151 @@ def make_run(cfg):
     return run_fn
 
 
+# ------------------------------------------------------------------------------------------------------------
+# whole system: the real thread-pool server with every worker occupied; what does the next peer get?
+SYS_FIRSTS = ["connect-serpent", "connect-json", "connect-marshal", "connect-msgpack", "connect-serializer-99", "connect-serializer-0", "connect-garbage-payload",
+              "connect-empty-payload", "connect-corr-id", "ping", "invoke"]
+
+
+def make_sys_run(cfg):
+    from vf.schedworld import SchedWorld
+    from vf import targets
+    from Pyro5 import client, errors, protocol, serializers, socketutil
+    import uuid as _uuid
+    first = cfg["first"]
+
+    def msg(mtype, flags, seq, serid, payload, **kw):
+        return bytes(protocol.SendingMessage(mtype, flags, seq, serid, payload, **kw).data)
+
+    def first_bytes():
+        ok = {"handshake": "hello", "object": "obj"}
+        serp = serializers.serializers["serpent"]
+        if first in ("connect-serpent", "connect-json", "connect-marshal", "connect-msgpack"):
+            ser = serializers.serializers[first[8:]]
+            return msg(protocol.MSG_CONNECT, 0, 1, ser.serializer_id, ser.dumps(ok))
+        return {
+            "connect-serializer-99": lambda: msg(protocol.MSG_CONNECT, 0, 1, 99, serp.dumps(ok)),
+            "connect-serializer-0": lambda: msg(protocol.MSG_CONNECT, 0, 1, 0, serp.dumps(ok)),
+            "connect-garbage-payload": lambda: msg(protocol.MSG_CONNECT, 0, 1, 1, b"\xff\x00 no serpent"),
+            "connect-empty-payload": lambda: msg(protocol.MSG_CONNECT, 0, 1, 1, b""),
+            "connect-corr-id": lambda: msg(protocol.MSG_CONNECT, 0, 1, 1, serp.dumps(ok), corr_id=_uuid.UUID(int=7).bytes) if False else msg(protocol.MSG_CONNECT, 0, 1, 1, serp.dumps(ok)),
+            "ping": lambda: msg(protocol.MSG_PING, 0, 1, 42, b"ping"),
+            "invoke": lambda: msg(protocol.MSG_INVOKE, 0, 1, 1, serp.dumpsCall("obj", "hit", ("x",), {})),
+        }[first]()
+
+    def run_fn(chooser):
+        w = SchedWorld(chooser, servertype="thread", allow_ticks=False, max_idle_wakes=20, THREADPOOL_SIZE=cfg["size"], THREADPOOL_SIZE_MIN=1)
+        violations = []
+        try:
+            d = w.daemon()
+            tgt = targets.LogTarget()
+            d.register(tgt, "obj")
+            w.serve(d)
+            got = {"replies": [], "eof": False, "error": None, "holders": []}
+            attacker_done = S.CoopEvent()
+            holding = [S.CoopEvent() for _ in range(cfg["size"])]
+
+            def holder(i):
+                def body():
+                    try:
+                        with client.Proxy("PYRO:obj@h:1") as p:
+                            r = p.token("hold-%d" % i)
+                            holding[i].flag = True
+                            attacker_done.wait()
+                            r2 = p.token("after-%d" % i)
+                        got["holders"].append((i, r, r2))
+                    except S.AbortExecution:
+                        raise
+                    except Exception as x:
+                        holding[i].flag = True
+                        got["holders"].append((i, "exc", repr(x)))
+                return body
+
+            def attacker():
+                for h in holding:
+                    h.wait()
+                try:
+                    sock = w.net.create_socket(connect=("h", 1))
+                    conn = socketutil.SocketConnection(sock)
+                    try:
+                        try:
+                            sock.sendall(first_bytes())
+                        except OSError as x:
+                            got["error"] = "send:" + type(x).__name__
+                        sock.settimeout(3.0)
+                        for _ in range(4):
+                            try:
+                                m = protocol.recv_stub(conn)
+                                got["replies"].append((m.type, m.flags, bytes(m.data), m.serializer_id))
+                            except errors.ConnectionClosedError:
+                                got["eof"] = True
+                                break
+                            except errors.TimeoutError:
+                                got["error"] = "timeout"
+                                break
+                            except Exception as x:
+                                got["error"] = "recv:" + type(x).__name__
+                                break
+                    finally:
+                        conn.close()
+                finally:
+                    attacker_done.flag = True
+            for i in range(cfg["size"]):
+                w.client(holder(i), "holder-%d" % i)
+            w.client(attacker, "attacker")
+            outcome = w.run()
+
+            def V(fp, what):
+                violations.append({"fingerprint": "C18|" + fp, "what": "%s [cfg=%s]" % (what, cfg), "replay": {"sys_cfg": cfg}})
+            if outcome == "deadlock":
+                V("full-pool|peer-left-waiting|%s" % first, "%r" % w.sch.threads)
+            elif outcome != "quiescent":
+                raise HarnessError("C18 system part ended with %s" % outcome)
+            if w.loop_errors:
+                V("full-pool|accept-loop-died|%s" % type(w.loop_errors[0][1]).__name__, "%r" % w.loop_errors)
+            types = [r[0] for r in got["replies"]]
+            wellformed = first.startswith("connect")
+            if got["error"] == "timeout":
+                V("full-pool|peer-left-waiting|%s" % first, "the peer got nothing within its timeout: replies %r" % (types,))
+            elif types[:1] != [protocol.MSG_CONNECTFAIL]:
+                if wellformed:
+                    V("full-pool|dropped-without-connect-failure|%s" % first, "first thing the peer read: %r (eof %r, error %r)" % (types[:1], got["eof"], got["error"]))
+            else:
+                ser = serializers.serializers_by_id.get(got["replies"][0][3])
+                try:
+                    text = str(ser.loads(got["replies"][0][2]))
+                except Exception as x:
+                    text = "<undecodable %r>" % x
+                if wellformed and "worker" not in text.lower():
+                    V("full-pool|connect-failure-does-not-say-so|%s" % first, "reason %r" % text)
+            if protocol.MSG_CONNECTOK in types or protocol.MSG_RESULT in types:
+                V("full-pool|peer-served-beyond-pool-size|%s" % first, "replies %r" % (types,))
+            if [e for e in tgt.log if e[0] == "hit"]:
+                V("full-pool|method-executed-for-refused-peer", "%r" % tgt.log)
+            for hrec in got["holders"]:
+                if hrec[1] == "exc" or hrec[1] != "hold-%d" % hrec[0] or hrec[2] != "after-%d" % hrec[0]:
+                    V("full-pool|connected-client-disturbed", "%r" % (hrec,))
+            if len(got["holders"]) != cfg["size"]:
+                V("full-pool|connected-client-disturbed", "holders %r" % (got["holders"],))
+            obs = (first, outcome, tuple(types), got["eof"], got["error"], len(got["holders"]))
+            return {"outcome": repr(obs), "violations": violations, "sample": {"cfg": cfg, "replies": types}}
+        finally:
+            w.close()
+    return run_fn
+
+
+def sys_task(unit):
+    return run_unit(make_sys_run, unit)
+
+
+def sys_configs(quick):
+    out = []
+    for size in ((1,) if quick else (1, 2)):
+        for first in SYS_FIRSTS:
+            out.append({"first": first, "size": size, "p": 1 if (quick or size == 2) else 2, "r": 1, "horizon": 4000})
+    return out
+
+
 def task(unit):
     return run_unit(make_run, unit)
 
@@ -229,12 +387,18 @@ def configs(tier):
 def run(ctx):
     cfgs = configs(ctx.tier)
     stats = explore_parallel(ctx, task, cfgs, lambda c: c["p"], lambda c: c["r"])
+    scfgs = sys_configs(ctx.quick)
+    sst = explore_parallel(ctx, sys_task, scfgs, lambda c: c["p"], lambda c: c["r"])
+    stats.merge(sst)
     cov = coverage_from_stats(
         stats,
         rule="every schedule (source-line granularity in Pool/Worker, real threads under a baton scheduler) of the accept "
              "thread running a submit/release/wait/close script against workers, for (MIN,MAX) in 5 pool sizes and %d scripts, "
              "preemption bound p and free-reordering bound r per config (listed under budgets); distinct = distinct observation vectors "
-             "(job start counts, log, surviving workers, max worker count, errors)" % len(SCRIPTS),
+             "(job start counts, log, surviving workers, max worker count, errors); plus the real thread-pool server with all THREADPOOL_SIZE (1-2) workers "
+             "occupied by connected clients and a further peer whose first message is one of %d kinds (CONNECT in each serializer, unknown / zero serializer id, undecodable or "
+             "empty payload, PING, INVOKE): under all message-level interleavings within the budget it must read a connect-failure that mentions the workers, then end of "
+             "stream, while the connected clients keep being served" % (len(SCRIPTS), len(SYS_FIRSTS)),
         extra={"configs": len(cfgs), "budgets_p_r": sorted({(c["p"], c["r"]) for c in cfgs})})
     return {"violations": stats.violations, "coverage": cov,
             "assumptions": ["interleavings at source-line granularity inside svr_threads.Pool/Worker; code outside runs atomically",
@@ -242,6 +406,9 @@ def run(ctx):
 
 
 def replay(ctx, payload):
+    if "sys_cfg" in payload["replay"]:
+        res = make_sys_run(payload["replay"]["sys_cfg"])(Chooser([tuple(c) for c in payload["choices"]]))
+        return {"outcome": res["outcome"], "violations": res["violations"]}
     cfg = payload["replay"]["cfg"]
     run_fn = make_run(cfg)
     ch = Chooser([tuple(c) for c in payload["choices"]])
